@@ -98,7 +98,7 @@ def assume_not_named(ex, words, shorts, longs):
 
 
 def spec_env(ex):
-    return G.Env(valid=lambda t: tok.VALID(t), guard=lambda t: tok.GUARD(t),
+    return G.Env(valid=lambda t: tok.VALID(t), guard=None, value=lambda t: tok.U32OF(t),
                  env_set=lambda t: tok.ENVSET(t if not isinstance(t, int) else z3.IntVal(t)),
                  env_val=lambda t: tok.ENVVAL(t if not isinstance(t, int) else z3.IntVal(t)),
                  intern=lambda s: ex.intern(s))
@@ -206,6 +206,10 @@ def run_tok_job(job, build, corpus, oracle, max_validate=400, step_budget=600000
             c["native"] = [ncls, npay[:2000]]
             pc_, pv_ = c["predicted"]
             c["reproduced"] = (ncls == pc_) and (pc_ != "ok" or npay == pv_)
+            ex_ = c.get("extra")
+            if c["reproduced"] and isinstance(ex_, dict) and ex_.get("native_text_none_of"):
+                # message-level claims are confirmed on the rendered native text
+                c["reproduced"] = not any(frag in npay for frag in ex_["native_text_none_of"])
     return out
 
 
